@@ -44,6 +44,7 @@ type V struct {
 	L []V     `json:"l,omitempty"` // list, tuple: elements
 	R []int64 `json:"r,omitempty"` // range: start, stop, step
 	M string  `json:"m,omitempty"` // err, panic: message (never compared)
+	F string  `json:"f,omitempty"` // float: decimal text ("" = the placeholder value 1.5)
 }
 
 // Case is one operation.
@@ -58,6 +59,8 @@ type Case struct {
 	After *V     `json:"after,omitempty"` // list receiver after the call
 	Want  *V     `json:"want,omitempty"` // gomis: what the Go oracle expects
 	WantA *V     `json:"wanta,omitempty"`
+	Key   string `json:"key,omitempty"`   // sort: name of the key= function ("" = none)
+	Rev   string `json:"rev,omitempty"`   // sort: reverse= "true" | "false" | "" (omitted)
 	Class string `json:"class,omitempty"` // generator class (distribution)
 	GM    bool   `json:"gm,omitempty"`    // the Go copy of the specification disagrees with Obs
 }
@@ -71,9 +74,17 @@ func vBool(b bool) V       { return V{T: "bool", B: b} }
 func vList(l ...V) V       { return V{T: "list", L: l} }
 func vTuple(l ...V) V      { return V{T: "tuple", L: l} }
 func vFloat() V            { return V{T: "float"} }
+func vF(f float64) V       { return V{T: "float", F: strconv.FormatFloat(f, 'g', -1, 64)} }
 func vRange(a, b, c int64) V { return V{T: "range", R: []int64{a, b, c}} }
 
 func (v V) str() string { b, _ := hex.DecodeString(v.S); return string(b) }
+func (v V) float() float64 {
+	if v.F == "" {
+		return 1.5
+	}
+	f, _ := strconv.ParseFloat(v.F, 64)
+	return f
+}
 func (v V) big() *big.Int {
 	z, _ := new(big.Int).SetString(v.I, 10)
 	return z
@@ -92,6 +103,14 @@ def add(x, y): return x + y
 def mul(x, y): return x * y
 def mod(x, y): return x % y
 def mkrange(a, b, c): return range(a, b, c)
+k_len = len
+k_int = int
+def k_mod3(x): return x % 3
+def k_zero(x): return 0
+def k_first(x): return x[0]
+def k_lower(x): return x.lower()
+def k_neg(x): return -x
+def k_ident(x): return x
 `
 
 func init() {
@@ -128,7 +147,7 @@ func toStarlark(v V) starlark.Value {
 		}
 		return el
 	case "float":
-		return starlark.Float(1.5)
+		return starlark.Float(v.float())
 	case "range":
 		r, err := starlark.Call(thread, prelude["mkrange"], starlark.Tuple{starlark.MakeInt64(v.R[0]), starlark.MakeInt64(v.R[1]), starlark.MakeInt64(v.R[2])}, nil)
 		if err != nil {
@@ -169,7 +188,7 @@ func fromStarlark(x starlark.Value) V {
 		}
 		return V{T: "tuple", L: l}
 	case starlark.Float:
-		return vFloat()
+		return vF(float64(x))
 	}
 	if x.Type() == "range" {
 		it := x.(starlark.Iterable).Iterate()
@@ -187,7 +206,9 @@ func fromStarlark(x starlark.Value) V {
 	return V{T: "float", M: x.Type()}
 }
 
-func callSafe(fn starlark.Value, args starlark.Tuple) (res V) {
+func callSafe(fn starlark.Value, args starlark.Tuple) V { return callSafeKw(fn, args, nil) }
+
+func callSafeKw(fn starlark.Value, args starlark.Tuple, kwargs []starlark.Tuple) (res V) {
 	defer func() {
 		if e := recover(); e != nil {
 			res = V{T: "panic", M: fmt.Sprint(e)}
@@ -195,7 +216,7 @@ func callSafe(fn starlark.Value, args starlark.Tuple) (res V) {
 			thread = &starlark.Thread{Name: "c13"}
 		}
 	}()
-	r, err := starlark.Call(thread, fn, args, nil)
+	r, err := starlark.Call(thread, fn, args, kwargs)
 	if err != nil {
 		return V{T: "err", M: firstLine(err.Error())}
 	}
@@ -259,6 +280,19 @@ func run(c *Case) {
 			args[i] = toStarlark(a)
 		}
 		c.Obs = callSafe(starlark.Universe[c.Name], args)
+	case "sort":
+		args := make(starlark.Tuple, len(c.Args))
+		for i, a := range c.Args {
+			args[i] = toStarlark(a)
+		}
+		var kwargs []starlark.Tuple
+		if c.Key != "" {
+			kwargs = append(kwargs, starlark.Tuple{starlark.String("key"), prelude["k_"+c.Key]})
+		}
+		if c.Rev != "" {
+			kwargs = append(kwargs, starlark.Tuple{starlark.String("reverse"), starlark.Bool(c.Rev == "true")})
+		}
+		c.Obs = callSafeKw(starlark.Universe[c.Name], args, kwargs)
 	case "bin":
 		fn := prelude["add"]
 		if c.Name == "*" {
@@ -294,6 +328,9 @@ func sameV(a, b V) bool {
 		return a.T == b.T
 	}
 	if a.T != b.T || a.I != b.I || a.B != b.B || a.S != b.S || len(a.L) != len(b.L) {
+		return false
+	}
+	if a.T == "float" && a.float() != b.float() {
 		return false
 	}
 	for i := range a.L {
@@ -351,6 +388,9 @@ func (s *sink) do(c Case) {
 		pe = s.pyEvery[""]
 	}
 	// deterministic stride with a per-class random phase
+	if c.Op == "sort" && !sortIntKeys(&c) {
+		ce = 0 // the Coq model of sorted / min / max works on integer keys
+	}
 	if ce > 0 && (n+phase(c.Class, ce))%ce == 0 {
 		c.K = "case"
 		s.coqN++
@@ -401,6 +441,8 @@ func main() {
 	lap("random")
 	genPyOnly(s, quick)
 	lap("cpython-only")
+	genSort(s, quick)
+	lap("sort")
 	riskyParent(s, quick, *seed)
 	lap("risky")
 	type kv struct {
